@@ -12,3 +12,4 @@ open Photon.Sock
 #print axioms C10_ioLoop_short_means_eof
 #print axioms C10_ioLoopV_requests_suffix
 #print axioms skipEmpty0_head
+#print axioms C10_no_spurious_wakeup
